@@ -124,6 +124,10 @@ def _operator_is_product(rho: np.ndarray, dim: int | list[int] = None) -> list[i
     if isinstance(dim, list):
         dim = np.array(dim)
 
+    # Allow the user to enter a single number for `dim` (the dimension of the first subsystem), as for vectors.
+    if isinstance(dim, (int, np.integer)):
+        dim = np.array([dim, len(rho) // dim], dtype=int)
+
     num_sys = len(dim)
 
     # Allow the user to enter a vector for `dim` if `rho` is square.
